@@ -30,7 +30,7 @@ func (c09) Assumptions() []string {
 }
 func (c09) Floors(tier string, c map[string]int64) []string {
 	var out []string
-	for _, k := range []string{"holder/SoftCollection", "holder/WrapperCollection", "holder/Resources-soft", "holder/Resources-wrapped", "with_filter", "with_ids", "rules_with_id", "rules_without_id", "size_zero", "ties_seen", "nil_keys_seen", "pages_nonempty"} {
+	for _, k := range []string{"holder/SoftCollection", "holder/WrapperCollection", "holder/Resources-soft", "holder/Resources-wrapped", "with_filter", "with_ids", "rules_with_id", "rules_without_id", "size_zero", "huge_page_size", "ties_seen", "nil_keys_seen", "pages_nonempty"} {
 		if c[k] == 0 {
 			out = append(out, "never observed: "+k)
 		}
@@ -213,6 +213,10 @@ func (m c09) Case(c *Ctx, r *RNG) {
 		s.Rules = append(s.Rules, name)
 	}
 	s.Size = uint(r.Range(0, n+2))
+	if r.Chance(1, 12) {
+		// huge page sizes: with number 0 the product stays below 2^63
+		s.Size = []uint{1 << 31, 1 << 40, 1 << 62, 1<<63 - 1, 1 << 63, ^uint(0)}[r.Intn(6)]
+	}
 	if c.Index < 2 {
 		c.Sample(s)
 	}
@@ -277,14 +281,20 @@ func (m c09) run(c *Ctx, s *c09scn, r *RNG) {
 	}
 	m0 := len(ref)
 	npages := 1
-	if s.Size > 0 {
+	if s.Size > 0 && s.Size < 1<<31 {
 		npages = (m0+int(s.Size)-1)/int(s.Size) + 1
 	}
 	nums := []uint{}
 	for p := 0; p <= npages; p++ {
 		nums = append(nums, uint(p))
 	}
-	if s.Size > 0 {
+	if s.Size >= 1<<31 {
+		nums = []uint{0} // number*size must stay below 2^63
+		if s.Size < 1<<62 {
+			nums = append(nums, 1)
+		}
+		c.Count("huge_page_size")
+	} else if s.Size > 0 {
 		nums = append(nums, uint((uint64(1)<<62)/uint64(s.Size)), 1000003)
 	} else {
 		nums = append(nums, 1<<40)
@@ -340,7 +350,7 @@ func (m c09) run(c *Ctx, s *c09scn, r *RNG) {
 			var want []*ResSpec
 			if lo < uint64(m0) {
 				hi := lo + uint64(s.Size)
-				if hi > uint64(m0) {
+				if hi > uint64(m0) || hi < lo {
 					hi = uint64(m0)
 				}
 				want = ref[lo:hi]
@@ -416,7 +426,7 @@ func (m c09) run(c *Ctx, s *c09scn, r *RNG) {
 				}
 			}
 		}
-		if s.Size > 0 && len(seen) != m0 {
+		if s.Size > 0 && s.Size < 1<<31 && len(seen) != m0 {
 			c.Violate("pages-do-not-cover", "pages 0..%d hold %d distinct resources, %d match; %s", npages, len(seen), m0, desc())
 			return
 		}
